@@ -41,12 +41,46 @@ def build(vacuity=False):
         fn("meta.rule_matches", "filter/meta.rs", "FilterRule", "matches"),
         fn("meta.matches_filters", "filter/meta.rs", "MetaFilterAdapter", "matches_filters"),
         fn("meta.filter", "filter/meta.rs", "MetaFilterAdapter", "filter", trait="FilterAdapter", collect_types=["Vec<Target>"]),
-        fn("option.filter", "filter/option.rs", "OptionFilterAdapter<T>", "filter", trait="FilterAdapter", subst={"crate::Result<Vec<Target>>": "Result<Vec<Target>>"}),
+        fn("option.filter", "filter/option.rs", "OptionFilterAdapter<T>", "filter", trait="FilterAdapter"),
         fn("chain.filter", "filter/mod.rs", "Vec<T>", "filter", trait="FilterAdapter"),
         fn("allow.filter", "filter/player_allow.rs", "PlayerAllowFilterAdapter", "filter", trait="FilterAdapter"),
         fn("block.filter", "filter/player_block.rs", "PlayerBlockFilterAdapter", "filter", trait="FilterAdapter"),
         fn("any.select", "strategy/any.rs", "AnyStrategyAdapter", "select", trait="StrategyAdapter"),
         fn("fill.select", "strategy/player_fill.rs", "PlayerFillStrategyAdapter", "select", trait="StrategyAdapter", search_types=["Option<(u32, (&Target, u32))>"]),
+        fn("meta.new", "filter/meta.rs", "MetaFilterAdapter", "new"),
+        fn("option.new", "filter/option.rs", "OptionFilterAdapter<T>", "new"),
+        fn("allow.new", "filter/player_allow.rs", "PlayerAllowFilterAdapter", "new"),
+        fn("block.new", "filter/player_block.rs", "PlayerBlockFilterAdapter", "new"),
+        fn("fill.new", "strategy/player_fill.rs", "PlayerFillStrategyAdapter", "new"),
+        fn("any.new", "strategy/any.rs", "AnyStrategyAdapter", "new"),
+    ]
+    # ---- the application side: src/config.rs values, src/adapter/{filter,strategy,mod}.rs
+    CFG = ["OptionFilterAdapter", "MetaFilter", "FilterRule", "PlayerAllowFilter", "PlayerBlockFilter", "PlayerFillStrategy", "GrpcStrategy"]
+    CFGE = ["FilterAdapter", "FilterOperation", "StrategyAdapter"]
+    items += [{"key": "config." + n, "file": "src/config.rs", "kind": "struct", "name": n, "rules": ["attrs"]} for n in CFG]
+    items += [{"key": "config." + n, "file": "src/config.rs", "kind": "enum", "name": n, "rules": ["attrs"]} for n in CFGE]
+    FI, SI = "src/adapter/filter.rs", "src/adapter/strategy.rs"
+    BOX = {"Box<dynstd::error::Error>": "BoxError"}
+
+    def app(key, file, kind="impl_fn", **kw):
+        d = {"key": key, "file": file, "kind": kind, "rules": RULES + ["into_from", "into_method"], "anchors": vxlib.anchors_for(fnc[key], vacuity), "subst": BOX}
+        d.update(kw)
+        return d
+
+    items += [
+        {"key": "app.DynFilterAdapter", "file": FI, "kind": "enum", "name": "DynFilterAdapter", "rules": ["attrs"]},
+        {"key": "app.DynFilterAdapters", "file": FI, "kind": "struct", "name": "DynFilterAdapters", "rules": ["attrs", "pub_fields"]},
+        {"key": "app.DynStrategyAdapter", "file": SI, "kind": "enum", "name": "DynStrategyAdapter", "rules": ["attrs"]},
+        app("app.dyn_filter", FI, self_ty="DynFilterAdapter", trait="FilterAdapter", name="filter"),
+        app("app.dyn_from_config", FI, self_ty="DynFilterAdapter", name="from_config", collect_types=["Vec<FilterRule>"]),
+        app("app.rule_from", FI, self_ty="FilterRule", trait="From<config::FilterRule>", name="from"),
+        app("app.op_from", FI, self_ty="FilterOperation", trait="From<config::FilterOperation>", name="from"),
+        app("app.dyns_filter", FI, self_ty="DynFilterAdapters", trait="FilterAdapter", name="filter"),
+        app("app.dyns_from_config", FI, self_ty="DynFilterAdapters", name="from_config"),
+        app("app.strat_select", SI, self_ty="DynStrategyAdapter", trait="StrategyAdapter", name="select"),
+        app("app.strat_from_config", SI, self_ty="DynStrategyAdapter", name="from_config"),
+        app("app.opt_to_regex", "src/adapter/mod.rs", kind="fn", name="opt_to_regex"),
+        app("app.opt_vec_to_uuid", "src/adapter/mod.rs", kind="fn", name="opt_vec_to_uuid"),
     ]
     ex = vxlib.run_vx(items)
     u = vxlib.Unit(NAME)
@@ -58,7 +92,13 @@ def build(vacuity=False):
     u.raw("verus! {\n")
     u.modules.append("adapters")
     # the prelude's traits mention `Target`, which is extracted: everything lives in one module that the prelude re-exports
-    u.raw("pub use adapters::Target;\npub mod adapters {\n    use super::*;\n    pub type Result<T> = std::result::Result<T, Error>;\n    broadcast use group_string_eq;\n")
+    u.raw("pub use adapters::Target;\npub mod adapters {\n    use super::*;\n    broadcast use group_string_eq;\n")
+    u.raw("    pub mod config {\n        use super::*;\n")
+    for n in CFG + CFGE:
+        u.add_item_text(ex["config." + n])
+    u.raw("    }\n")
+    for k in ["app.DynFilterAdapter", "app.DynFilterAdapters", "app.DynStrategyAdapter"]:
+        u.add_item_text(ex[k])
     for k in ["adapters.Target", "meta.FilterOperation", "meta.FilterRule", "meta.MetaFilterAdapter", "option.OptionFilterAdapter",
               "allow.PlayerAllowFilterAdapter", "block.PlayerBlockFilterAdapter", "any.AnyStrategyAdapter", "fill.PlayerFillStrategyAdapter"]:
         u.add_item_text(ex[k])
@@ -87,5 +127,30 @@ def build(vacuity=False):
     impl("impl FilterAdapter for PlayerBlockFilterAdapter", ["block.filter"], F + " { block_filtered(*self, c, ts) }")
     impl("impl StrategyAdapter for AnyStrategyAdapter", ["any.select"], S + " { any_selected_ok(ts, r) }")
     impl("impl StrategyAdapter for PlayerFillStrategyAdapter", ["fill.select"], S + " { fill_selected_ok(*self, ts, r) }")
+    # derives dropped by R2 that the code relies on
+    u.raw("    impl Default for AnyStrategyAdapter { fn default() -> Self { AnyStrategyAdapter {} } }\n")
+    for k in ["meta.new", "option.new", "allow.new", "block.new", "fill.new", "any.new", "app.dyn_from_config", "app.dyns_from_config", "app.strat_from_config",
+              "app.opt_to_regex", "app.opt_vec_to_uuid"]:
+        ex[k]["vis"] = ""
+    impl("impl MetaFilterAdapter", ["meta.new"])
+    impl("impl<T> OptionFilterAdapter<T>", ["option.new"])
+    impl("impl PlayerAllowFilterAdapter", ["allow.new"])
+    impl("impl PlayerBlockFilterAdapter", ["block.new"])
+    impl("impl PlayerFillStrategyAdapter", ["fill.new"])
+    impl("impl AnyStrategyAdapter", ["any.new"])
+    impl("impl FilterAdapter for DynFilterAdapter", ["app.dyn_filter"], F + " { dyn_filtered(*self, c, ts) }")
+    impl("impl DynFilterAdapter", ["app.dyn_from_config"])
+    # vstd's From specification trait: these impls promise nothing beyond the contracts below
+    u.raw("""    impl vstd::std_specs::convert::FromSpecImpl<config::FilterRule> for FilterRule { open spec fn obeys_from_spec() -> bool { false } open spec fn from_spec(v: config::FilterRule) -> FilterRule { arbitrary() } }
+    impl vstd::std_specs::convert::FromSpecImpl<config::FilterOperation> for FilterOperation { open spec fn obeys_from_spec() -> bool { false } open spec fn from_spec(v: config::FilterOperation) -> FilterOperation { arbitrary() } }
+""")
+    impl("impl From<config::FilterRule> for FilterRule", ["app.rule_from"])
+    impl("impl From<config::FilterOperation> for FilterOperation", ["app.op_from"])
+    impl("impl FilterAdapter for DynFilterAdapters", ["app.dyns_filter"], F + " { chain_filtered(self.filters@, c, ts) }")
+    impl("impl DynFilterAdapters", ["app.dyns_from_config"])
+    impl("impl StrategyAdapter for DynStrategyAdapter", ["app.strat_select"], S + " { dyn_selected_ok(*self, c, ts, r) }")
+    impl("impl DynStrategyAdapter", ["app.strat_from_config"])
+    u.add_fn(ex["app.opt_to_regex"], fnc["app.opt_to_regex"], vacuity=vacuity, indent="    ")
+    u.add_fn(ex["app.opt_vec_to_uuid"], fnc["app.opt_vec_to_uuid"], vacuity=vacuity, indent="    ")
     u.raw("}\n} // verus!\nfn main() {}\n")
     return u
